@@ -205,6 +205,9 @@ func Run(prop, tier string) int {
 	if prop == "C14" {
 		return rt.RunNames(families[prop], tier)
 	}
+	if prop == "C10" {
+		return rt.RunRefs(tier)
+	}
 	if prop == "C18" {
 		return rt.RunCLI("C18", tier, "scenarios = flag status (ok / no arguments / no package / mapping without '=' / unknown flag / malformed bool) x output mode (stdout / -o file with a pre-existing sentinel / per-schema files in new directories) x 1..2 (thorough: 3) arguments, each valid or carrying one of 14 file-level faults or one of 13 ungeneratable elements at one of 7 positions (quick: at most one faulty argument among two); plus a seeded byte-level sweep (prefixes, single-byte replacement / deletion / insertion of a valid schema file). distinct_nontrivial = runs that ended with a non-zero status (the clean-failure clause is exercised)")
 	}
@@ -216,6 +219,9 @@ func Run(prop, tier string) int {
 }
 
 func Replay(prop, path string) int {
+	if prop == "C10" {
+		return rt.ReplayRefs(path)
+	}
 	if f, ok := families[prop]; ok {
 		return rt.ReplayFile(f, path)
 	}
